@@ -228,7 +228,7 @@ BadCps == {<<0>>, <<97, 55296>>, <<65534>>, <<1114112, 98>>, <<57343>>}
 GoodCps == {<<55295, 57344>>, <<65533, 65536>>, <<1114111>>, <<9, 10, 13>>}
 
 SweepChars == (32..126) \cup {9, 10, 13}       \* printable ASCII and the XML whitespace characters
-Core == Alpha \cup {UpperC(c) : c \in Alpha} \cup {LowerC(c) : c \in Alpha}
+Core == Alpha       \* results that leave the alphabet ('B' = upper-case('b'), '1' from translate) are not expanded
 InPart(s) == IF s = <<>> THEN 0 \in Part ELSE s[1] \in Part
 Expandable(v) ==
   \/ v.t \in {"cps", "empty"}
